@@ -19,7 +19,7 @@ CHECK = {
     "design_ref": "DESIGN.md §4 C08",
     "technique": "Lean 4: memo-table refinement (get_transparent, run_transparent, history_independent, schedule_independent) for the process-wide caches + purity correspondence suite under the Go race detector (fresh-state vs history/concurrent answers, and vs Impl.resolve)",
     "trusted_base": LEAN_TB + ["the Go race detector (runtime/race) for data-race freedom", "Model/Memo.lean abstracts each cache as an atomic memo step over immutable values"],
-    "rule": "purity: 2-3 universe families (1-3 architectures each) x 3 worlds per family; every (family, arch, world, single/multi) is resolved in a fresh state (all caches reset, fresh objects), then after a random sequential history and from 4-16 goroutines over shared and private index objects; any answer differing from the fresh one is reported; every fresh answer is also compared with Impl.resolve. resolver: every case resolved twice on freshly built objects (fresh map orders). non-trivial = successful resolution; distinct = distinct request lines",
+    "rule": "35% of history steps are preceded by an abandoned resolution (context cancelled at its n-th consultation, n in 0..40) whose leftovers in the shared caches must not change any later answer; purity: 2-3 universe families (1-3 architectures each) x 3 worlds per family; every (family, arch, world, single/multi) is resolved in a fresh state (all caches reset, fresh objects), then after a random sequential history and from 4-16 goroutines over shared and private index objects; any answer differing from the fresh one is reported; every fresh answer is also compared with Impl.resolve. resolver: every case resolved twice on freshly built objects (fresh map orders). non-trivial = successful resolution; distinct = distinct request lines",
     "assumptions": ["cache steps are atomic (mutex / sync.Map) and cached values are not mutated after publication — the latter is what Clone()/maps.Clone provide; it is exercised by the suite under -race, not proved"],
     "text": "Cache transparency is proved for all pure functions, histories and interleavings on the memo model (a resolution is a program of atomic cache steps). Partial: Go-level aliasing of the shallow clones and data-race freedom are runtime facts; they are exercised by the purity suite built with -race (a race report or any divergence from the fresh-state answer is a violation). Map-order dependence inside one resolution (F01a, F08b) was found by this check and repaired.",
 }
